@@ -47,3 +47,11 @@ check("C22", "exploration", "schedule-steered random and directed concurrent his
       "For ~5.4k (quick) / ~131k (thorough) short programs per seed over mpmc.Queue and mpsc.Accumulator (1-4 producers, 1-3 consumers, capacities 2-8, growth, Close, cancellation, scripted holds at all 10 hook yield points): no history may be non-linearizable against a FIFO-with-close model (per-producer FIFO for mpsc), no item lost or duplicated after close+drain, and no goroutine may stay parked with an item, slot, close or cancel pending (logical stuck-state criterion from goroutine dumps, not wall-clock). Schedules are sampled, not enumerated.",
       "Trusts porcupine, runtime.Stack status reporting and the verifhook yield points; mpsc judged only under its documented Close precondition; Size/Capacity values not judged; watchdog expiry = inconclusive.",
       "DESIGN.md §5 C22")
+check("C02", "exploration", "differential monitor: same request under forced strategy modes x tuning lattice x repetition x concurrency, reference model arbitrating; -race",
+      "Each sampled Check request of each seeded case is answered under every (server tuning x forced planner strategy mode) combination, repeated and issued from 12-32 concurrent goroutines; all decisions must be equal and ListObjects sets must be equal across the three engines, tuning variants and strategy modes. The evidence counts how often each strategy was actually forced. Held on the explored configurations only.",
+      "Strategies are forced through the verif planner hook (H1); generous deadlines so no answer is deadline-truncated; the reference semantics names the wrong side and known findings are matched by deviation models.",
+      "DESIGN.md §5 C02")
+check("C03", "exploration", "reference-model monitor (object subjects) + differential monitor v1 vs weighted-graph engine with the breaking-change detector's log as required explanation (userset / wildcard subjects)",
+      "Every request of the C01 request space is sent to a weighted_graph_check server (v2 strategies forced in turn, fallback observed through the captured server log) and to a v1 server on the same datastore. Object subjects must satisfy the C01 acceptance relation; for wildcard/userset subjects a decision differing from v1 must come with the detector's warning. Several genuine defects of the weighted-graph engine are listed as known findings with firing conditions.",
+      "Observed at the server path (v2 + fallback); raw v2 errors seen through the fallback warning; reference semantics harness/ref.",
+      "DESIGN.md §5 C03")
